@@ -19,11 +19,13 @@ import (
 	"github.com/oasisprotocol/oasis-core/go/common/crypto/signature"
 	memorySigner "github.com/oasisprotocol/oasis-core/go/common/crypto/signature/signers/memory"
 	"github.com/oasisprotocol/oasis-core/go/common/node"
+	"github.com/oasisprotocol/oasis-core/go/common/quantity"
 	registry "github.com/oasisprotocol/oasis-core/go/registry/api"
 	"github.com/oasisprotocol/oasis-core/go/roothash/api/block"
 	"github.com/oasisprotocol/oasis-core/go/roothash/api/commitment"
 	"github.com/oasisprotocol/oasis-core/go/roothash/api/message"
 	scheduler "github.com/oasisprotocol/oasis-core/go/scheduler/api"
+	staking "github.com/oasisprotocol/oasis-core/go/staking/api"
 
 	"verifharness/internal/coqout"
 	"verifharness/internal/prng"
@@ -40,7 +42,11 @@ type VCommit struct {
 	Twist  string `json:"tw,omitempty"`  // field-level malformation (see buildVCommit)
 	BadSig bool   `json:"bs,omitempty"`  // corrupted signature
 	SignAs int    `json:"sa,omitempty"`  // 1+index of another node whose key signs (0 = own key)
-	MsgHW  bool   `json:"mhw,omitempty"` // header.MessagesHash does not match the (empty) message list
+	MsgHW  bool   `json:"mhw,omitempty"` // header.MessagesHash is not the hash of any message list
+	MH     int    `json:"mh,omitempty"`  // header.MessagesHash = hash of the first MH canonical runtime messages
+	NMsgs  int    `json:"nm,omitempty"`  // number of canonical runtime messages carried by the commitment
+	BadMsg bool   `json:"bm,omitempty"`  // the first carried message fails ValidateBasic (no field set)
+	Reject bool   `json:"rj,omitempty"`  // the first carried message is one the message validator rejects
 }
 
 var (
@@ -48,6 +54,32 @@ var (
 	signerIdx = map[signature.PublicKey]int{}
 	vRuntime  *registry.Runtime
 )
+
+const vMaxMessages = 3
+
+// canonical runtime messages: message i is a staking transfer of i+1 base units
+func canonMsgs(n int) []message.Message {
+	var out []message.Message
+	for i := 0; i < n; i++ {
+		var to staking.Address
+		to[0] = byte(i + 1)
+		out = append(out, message.Message{Staking: &message.StakingMessage{Transfer: &staking.Transfer{To: to, Amount: *quantity.NewFromUint64(uint64(i + 1))}}})
+	}
+	return out
+}
+
+// vValidator is the custom message validator handed to VerifyExecutorCommitment: it rejects
+// a batch whose first message transfers exactly 777 base units.
+var errValidator = fmt.Errorf("verif: message validator says no")
+
+func vValidator(msgs []message.Message) error {
+	if len(msgs) > 0 && msgs[0].Staking != nil && msgs[0].Staking.Transfer != nil {
+		if msgs[0].Staking.Transfer.Amount.Cmp(quantity.NewFromUint64(777)) == 0 {
+			return errValidator
+		}
+	}
+	return nil
+}
 
 func vInit() {
 	signature.SetChainContext("verif C11 chain context")
@@ -58,7 +90,7 @@ func vInit() {
 		ID:              id,
 		Kind:            registry.KindCompute,
 		TEEHardware:     node.TEEHardwareInvalid,
-		Executor:        registry.ExecutorParameters{MaxMessages: 32},
+		Executor:        registry.ExecutorParameters{MaxMessages: vMaxMessages},
 		GovernanceModel: registry.GovernanceEntity,
 	}
 }
@@ -98,7 +130,19 @@ func buildVCommit(vc *VCommit, last *block.Block) *commitment.ExecutorCommitment
 	var io, st, mh, imh hash.Hash
 	io.Empty()
 	st.FromBytes([]byte(fmt.Sprintf("state root variant %d", vc.Res)))
-	mh = message.MessagesHash(nil)
+	mh = message.MessagesHash(canonMsgs(vc.MH))
+	if vc.NMsgs > 0 {
+		ec.Messages = canonMsgs(vc.NMsgs)
+		if vc.BadMsg {
+			ec.Messages[0] = message.Message{}
+		}
+		if vc.Reject {
+			ec.Messages[0].Staking.Transfer.Amount = *quantity.NewFromUint64(777)
+			if vc.MH == vc.NMsgs {
+				mh = message.MessagesHash(ec.Messages)
+			}
+		}
+	}
 	if vc.MsgHW {
 		mh.FromBytes([]byte("not the hash of the messages"))
 	}
@@ -160,6 +204,8 @@ func verifyClass(err error) (int, string) {
 	case err == commitment.ErrInvalidMessages:
 		// the very p2p permanent error value; errors.Is would match ANY permanent error
 		return 27, "invalid-messages"
+	case err == errValidator:
+		return 28, "message-validator-error"
 	case strings.Contains(err.Error(), "signature verification failed"):
 		// commit.Verify error wrapped in a p2p permanent error (pool.go:94-96)
 		return 21, "signature-invalid"
@@ -204,11 +250,12 @@ func runVCase(c Case) (res runResult) {
 				msgsHashOK = mh.Equal(h.MessagesHash)
 			}
 			vote := ec.ToVote()
-			res.coqOps = append(res.coqOps, fmt.Sprintf("VAdd (mkVC %d %d %d %d %d %d %s %s %s %s %d %s %d %s %s %s None true)",
+			res.coqOps = append(res.coqOps, fmt.Sprintf("VAdd (mkVC %d %d %d %d %d %d %s %s %s %s %d %s %d %s %s %s None %s)",
 				o.VC.Node, o.VC.Sched, h.Round, in.id(h.PreviousHash), uint8(ec.Header.Failure), in.id(vote),
 				coqout.Bool(h.IORoot != nil), coqout.Bool(h.StateRoot != nil), coqout.Bool(h.MessagesHash != nil), coqout.Bool(h.InMessagesHash != nil),
 				h.InMessagesCount, coqout.Bool(ec.Header.RAKSignature != nil), len(ec.Messages),
-				coqout.Bool(sigOK), coqout.Bool(msgsBasic), coqout.Bool(msgsHashOK)))
+				coqout.Bool(sigOK), coqout.Bool(msgsBasic), coqout.Bool(msgsHashOK), coqout.Bool(vValidator(ec.Messages) == nil)))
+			res.stats[fmt.Sprintf("messages-carried:%d", len(ec.Messages))]++
 			var verr, aerr error
 			panicked := false
 			func() {
@@ -217,7 +264,7 @@ func runVCase(c Case) (res runResult) {
 						panicked = true
 					}
 				}()
-				verr = commitment.VerifyExecutorCommitment(ctx, last, vRuntime, 0, ec, nil, nil)
+				verr = commitment.VerifyExecutorCommitment(ctx, last, vRuntime, 0, ec, vValidator, nil)
 				if verr == nil {
 					aerr = pool.AddVerifiedExecutorCommitment(com, ec)
 				}
@@ -358,7 +405,7 @@ func runVCase(c Case) (res runResult) {
 		}
 		res.coqSnap = append(res.coqSnap, fmt.Sprintf("(%d, (%s, %s))", r, cn, coqout.List(vs)))
 	}
-	res.blk = fmt.Sprintf("mkBlk %d %d 32", latest, blkHash)
+	res.blk = fmt.Sprintf("mkBlk %d %d %d", latest, blkHash, vMaxMessages)
 	return res
 }
 
@@ -395,6 +442,12 @@ func genVCase(r *prng.R) Case {
 	dissentPct := []int{0, 10, 35}[r.Intn(3)]
 	failPct := []int{0, 10, 30}[r.Intn(3)]
 	advPct := []int{10, 30, 60}[r.Intn(3)]
+	// runtime messages emitted by this round's batch (the scheduler carries them, every
+	// honest commitment has their hash in the header)
+	roundMsgs := 0
+	if r.Chance(40) {
+		roundMsgs = r.Range(1, vMaxMessages)
+	}
 	nAdds := r.Range(1, 2*(np+nb)+1)
 	var ops []Op
 	pr := func() {
@@ -413,6 +466,10 @@ func genVCase(r *prng.R) Case {
 		if r.Chance(15) {
 			vc.Sched = r.Intn(np)
 		}
+		vc.MH = roundMsgs
+		if vc.Node == vc.Sched {
+			vc.NMsgs = roundMsgs
+		}
 		switch {
 		case r.Chance(failPct) && vc.Node != vc.Sched:
 			vc.FCode = 1 + r.Intn(2)
@@ -420,7 +477,24 @@ func genVCase(r *prng.R) Case {
 			vc.Res = r.Range(1, 2)
 		}
 		if r.Chance(advPct) {
-			switch r.Intn(13) {
+			switch r.Intn(18) {
+			case 13: // more messages than the runtime allows
+				vc.Node, vc.FCode = vc.Sched, 0
+				vc.NMsgs, vc.MH = vMaxMessages+1, vMaxMessages+1
+			case 14: // a non-scheduler carries messages
+				if vc.Node == vc.Sched {
+					vc.Node = (vc.Sched + 1) % outsider
+				}
+				vc.FCode, vc.NMsgs = 0, r.Range(1, 2)
+			case 15: // a message that fails ValidateBasic
+				vc.Node, vc.FCode = vc.Sched, 0
+				vc.NMsgs, vc.MH, vc.BadMsg = 2, 2, true
+			case 16: // the message validator rejects the batch
+				vc.Node, vc.FCode = vc.Sched, 0
+				vc.NMsgs, vc.MH, vc.Reject = 1, 1, true
+			case 17: // the scheduler carries fewer / other messages than the header hash says
+				vc.Node, vc.FCode = vc.Sched, 0
+				vc.MH, vc.NMsgs = 2, 1
 			case 0: // stale round
 				vc.Round = strconv.FormatUint(latest, 10)
 			case 1:
